@@ -14,6 +14,7 @@ THEOREMS = ['segIntegral_closed', 'segIntegral_zero', 'firstOrderEntry_exact',
             'ff_gen_hermitian', 'ff_posSemidef', 'ff_diag_nonneg', 'trace_Useg', 'cm_entry',
             'segment_trace_integral', 'cm_segment_form', 'cm_segment_form_error']
 LEAN_MODULES = ['FFVerif.Props.C01', 'FFVerif.Props.C01Seg']
+PINS = ['pinControlMatrixFromScratch']
 GEN_SITES = ['const:numeric._first_order_integral',
              'einsum:numeric_calculate_control_matrix_from_scratch_0',
              'einsum:numeric_calculate_filter_function_0',
